@@ -118,7 +118,40 @@ def gen_case(rng, thorough, idx):
     return dict(kind=kind, nobj=nobj, progs=progs, seed=rng.randrange(1 << 30),
                 stick=rng.choice([0.0, 0.3, 0.6, 0.8, 0.9]), pool=7,
                 explicit=rng.random() < 0.2, garbage=rng.choice([0, 1, 2]),
-                clock_step=rng.choice([1.0, 1.0, 0.0, 0.0, 0.001]))
+                clock_step=rng.choice([1.0, 1.0, 0.0, 0.0, 0.001]),
+                pct=[rng.choice([1, 2, 3]), rng.choice([100, 300, 800])] if rng.random() < 0.35 else None)
+
+
+class PCTScheduler(sched.Scheduler):
+    """PCT-style strategy (priority per thread, the enabled thread of highest priority runs, at d-1
+    random change points the running thread drops to the lowest priority): finds the interleavings
+    that need few, specific preemptions.  Seeded, hence replayable like the base scheduler."""
+
+    def __init__(self, seed, depth, horizon, **kw):
+        sched.Scheduler.__init__(self, seed=seed, **kw)
+        self.depth, self.horizon = depth, horizon
+        self.prio = None
+        self.low = 0
+
+    def _choose(self, cur):
+        if self.prio is None:
+            names = [t.name for t in self.threads]
+            self.rng.shuffle(names)
+            self.prio = {n: len(names) - i for i, n in enumerate(names)}
+            self.changes = set(self.rng.randrange(self.horizon) for _ in range(max(0, self.depth - 1)))
+        en = [t for t in self.threads if self._enabled(t)]
+        if not en:
+            timed = [t for t in self.threads if not t.done and t.cond_wait is not None and t.cond_wait[2]]
+            return timed[0] if timed else None
+        self.steps += 1
+        if self.steps > self.max_steps:
+            return None
+        if self.steps in self.changes and cur is not None:
+            self.low -= 1
+            self.prio[cur.name] = self.low
+        best = max(en, key=lambda t: self.prio[t.name])
+        self.decisions.append(en.index(best))
+        return best
 
 
 # ---------------------------------------------------------------- real code
@@ -444,8 +477,11 @@ def run_case(case, tmp, with_trace=False, schedule=None):
             cm['ret'] = 0
             cm['thread'] = 'setup'
         run.ev = 1
-        s = sched.Scheduler(seed=case['seed'], stickiness=case.get('stick', 0.0), schedule=schedule,
-                            max_steps=400000)
+        if case.get('pct') and schedule is None:
+            s = PCTScheduler(case['seed'], case['pct'][0], case['pct'][1], max_steps=400000)
+        else:
+            s = sched.Scheduler(seed=case['seed'], stickiness=case.get('stick', 0.0), schedule=schedule,
+                                max_steps=400000)
         s.hooks = list(hooks)
         if rec is not None:
             sched.vfs_hook(rec)
@@ -551,7 +587,8 @@ def nontrivial(obs):
 
 def canonical(case):
     return dict(kind=case['kind'], nobj=case['nobj'], progs=case['progs'], seed=case['seed'],
-                stick=case['stick'], explicit=case['explicit'], clock_step=case.get('clock_step', 1.0))
+                stick=case['stick'], explicit=case['explicit'], clock_step=case.get('clock_step', 1.0),
+                pct=case.get('pct'))
 
 
 # ---------------------------------------------------------------- batches (multiprocessing)
@@ -572,6 +609,7 @@ def run_batch(args):
         nt = nontrivial(obs)
         out['evals'] += 1
         count('kind:' + case['kind'])
+        count('strategy:' + ('pct%d' % case['pct'][0] if case.get('pct') else 'random'))
         count('threads:%d' % len(case['progs']))
         if 'pk' in case['progs']:
             count('with-packer')
@@ -628,7 +666,7 @@ def main(argv=None):
     ck.extra['modules'] = ['Props.C02', 'Drivers.Mvcc']
     ck.run_gate(ck.extra['modules'], ['Props.C02'])
     import multiprocessing as mp
-    ncases = 20000 if ck.thorough else 600
+    ncases = 20000 if ck.thorough else 1500
     nproc = 16 if ck.thorough else 4
     cases = []
     corpus_dir = os.path.join(os.path.dirname(os.path.dirname(os.path.abspath(__file__))), 'corpus', 'C02')
